@@ -10,6 +10,7 @@ intermediate operations").  `IsRN q r`: `r` maps every rational to a representab
 import FAVerif.Lemmas.EFT
 import FAVerif.Lemmas.EFTSoft
 import FAVerif.Lemmas.SoftDiv
+import FAVerif.Lemmas.EFTBits
 import FAVerif.Generated.C10
 
 namespace FAVerif.Props.C10
@@ -378,6 +379,84 @@ theorem split_generated (r : ℚ → ℚ) (k e : ℤ) :
     have hp1 : q.p - 1 = 52 := by omega
     have := veltkamp_split q r hr binary64 4728779608772575232 27 c64 (by omega) (by omega) k e (by rw [hp1]; exact h1) (by rw [hq]; exact h2) h5
     rw [hq] at this; exact this
+
+/-! ### Bit patterns: the softfloat run refines the ℚ run -/
+open FAVerif.Refine
+
+/-- **Refinement theorem.**  For every program in the arithmetic / comparison / select fragment whose
+kind discipline checks (`kindsOf`, decidable), every format with p ≥ 2, ew ≥ 2, every oracle and all
+finite inputs: if the BIT-EXACT run is defined and every float-valued node of it is finite (nothing
+overflowed, no invalid operation), then the run over ℚ with round-to-nearest-even on the inputs' values
+is defined and every output pattern denotes the corresponding rational output (booleans as 0/1).
+Rests on: add/sub/mul/div of the softfloat correctly rounded, neg/abs exact, comparisons = comparisons
+of values (through the sign-magnitude ordinal). -/
+theorem soft_refines_rational (p : Prog) (hf : 2 ≤ p.fmt.p ∧ 2 ≤ p.fmt.ew) (kinds : List Bool) (hk : kindsOf p.nodes [] = some kinds)
+    (lib : Libm) (ins : List Nat) (insQ : List ℚ) (hins : InsRel p.fmt ins insQ) (env : Array Nat)
+    (he : evalNodes p.fmt lib ins p.nodes #[] = some env)
+    (hfin : ∀ (i : Nat) (v : Nat), env[i]? = some v → kinds[i]? = some false → isFiniteBits p.fmt v = true)
+    (outs : List Nat) (ho : p.eval lib ins = some outs) :
+    ∃ qs, p.evalQ (rne (qf p.fmt hf.1)) insQ = some qs ∧
+      List.Forall₂ (fun (kv : Nat × Nat) (q : ℚ) => ∃ k, kinds[kv.1]? = some k ∧ Rv p.fmt k kv.2 q) (p.outs.zip outs) qs :=
+  refines p ⟨hf.1, hf.2⟩ kinds hk lib ins insQ hins env he hfin outs ho
+
+/-- the regenerated unscaled Dekker programs are all-float -/
+theorem dekker_kinds : ∀ p ∈ [mul_dekker_f16, mul_dekker_f32, mul_dekker_f64, utils_multiply_dekker_f16, utils_multiply_dekker_f32,
+      utils_multiply_dekker_f64], kindsOf p.nodes [] = some (List.replicate 21 false) := by decide +kernel
+
+/-- **Dekker's product on BIT PATTERNS, end to end** (float32; float16 and float64 below): for all
+operand patterns x, y that decode to normal numbers whose product's error term does not underflow,
+whenever none of the 17 operations of the traced `mul_dekker` overflows, the softfloat returns patterns
+(h, l) with value(h) = RNE(value(x)·value(y)) and value(h) + value(l) = value(x)·value(y) exactly. -/
+theorem dekker_bit_exact_f32 (lib : Libm) (x y : Nat) (sx sy : Bool) (mx my : Nat) (ex ey : Int)
+    (dx : decode binary32 x = .fin sx mx ex) (dy : decode binary32 y = .fin sy my ey)
+    (nx : 2 ^ 23 ≤ mx) (ny : 2 ^ 23 ≤ my) (hund : binary32.emin ≤ ex + ey)
+    (env : Array Nat) (he : evalNodes binary32 lib [x, y] mul_dekker_f32.nodes #[] = some env)
+    (hfin : ∀ (i : Nat) (v : Nat), env[i]? = some v → isFiniteBits binary32 v = true)
+    (h l : Nat) (ho : mul_dekker_f32.eval lib [x, y] = some [h, l]) :
+    ∃ qh ql : ℚ, toQ binary32 h = some qh ∧ toQ binary32 l = some ql ∧
+      qh = rne (qf binary32 (by decide)) (valQ sx mx ex * valQ sy my ey) ∧ qh + ql = valQ sx mx ex * valQ sy my ey := by
+  have hfm : mul_dekker_f32.fmt = binary32 := by decide
+  have hk := dekker_kinds mul_dekker_f32 (by simp)
+  have hallf : ∀ (i : Nat) (k : Bool), (List.replicate 21 false)[i]? = some k → k = false := by
+    intro i k h; rw [List.getElem?_replicate] at h; split at h <;> simp_all
+  refine dekker_bits_of mul_dekker_f32 ⟨by decide, by decide⟩ _ hk hallf ?_ lib x y sx sy mx my ex ey dx dy nx ny hund env he hfin h l ho
+  intro r kx ky ex ey x y hx hy hr h1 h2 h3 h4 h5 h6 h7
+  exact ((dekker_generated r kx ky ex ey x y hx hy).2.1 (qf binary32 (by decide)) rfl hr h1 h2 h3 h4 h5 h6 h7).1
+
+theorem dekker_bit_exact_f16 (lib : Libm) (x y : Nat) (sx sy : Bool) (mx my : Nat) (ex ey : Int)
+    (dx : decode binary16 x = .fin sx mx ex) (dy : decode binary16 y = .fin sy my ey)
+    (nx : 2 ^ 10 ≤ mx) (ny : 2 ^ 10 ≤ my) (hund : binary16.emin ≤ ex + ey)
+    (env : Array Nat) (he : evalNodes binary16 lib [x, y] mul_dekker_f16.nodes #[] = some env)
+    (hfin : ∀ (i : Nat) (v : Nat), env[i]? = some v → isFiniteBits binary16 v = true)
+    (h l : Nat) (ho : mul_dekker_f16.eval lib [x, y] = some [h, l]) :
+    ∃ qh ql : ℚ, toQ binary16 h = some qh ∧ toQ binary16 l = some ql ∧
+      qh = rne (qf binary16 (by decide)) (valQ sx mx ex * valQ sy my ey) ∧ qh + ql = valQ sx mx ex * valQ sy my ey := by
+  have hk := dekker_kinds mul_dekker_f16 (by simp)
+  have hallf : ∀ (i : Nat) (k : Bool), (List.replicate 21 false)[i]? = some k → k = false := by
+    intro i k h; rw [List.getElem?_replicate] at h; split at h <;> simp_all
+  refine dekker_bits_of mul_dekker_f16 ⟨by decide, by decide⟩ _ hk hallf ?_ lib x y sx sy mx my ex ey dx dy nx ny hund env he hfin h l ho
+  intro r kx ky ex ey x y hx hy hr h1 h2 h3 h4 h5 h6 h7
+  exact ((dekker_generated r kx ky ex ey x y hx hy).1 (qf binary16 (by decide)) rfl hr h1 h2 h3 h4 h5 h6 h7).1
+
+theorem dekker_bit_exact_f64 (lib : Libm) (x y : Nat) (sx sy : Bool) (mx my : Nat) (ex ey : Int)
+    (dx : decode binary64 x = .fin sx mx ex) (dy : decode binary64 y = .fin sy my ey)
+    (nx : 2 ^ 52 ≤ mx) (ny : 2 ^ 52 ≤ my) (hund : binary64.emin ≤ ex + ey)
+    (env : Array Nat) (he : evalNodes binary64 lib [x, y] mul_dekker_f64.nodes #[] = some env)
+    (hfin : ∀ (i : Nat) (v : Nat), env[i]? = some v → isFiniteBits binary64 v = true)
+    (h l : Nat) (ho : mul_dekker_f64.eval lib [x, y] = some [h, l]) :
+    ∃ qh ql : ℚ, toQ binary64 h = some qh ∧ toQ binary64 l = some ql ∧
+      qh = rne (qf binary64 (by decide)) (valQ sx mx ex * valQ sy my ey) ∧ qh + ql = valQ sx mx ex * valQ sy my ey := by
+  have hk := dekker_kinds mul_dekker_f64 (by simp)
+  have hallf : ∀ (i : Nat) (k : Bool), (List.replicate 21 false)[i]? = some k → k = false := by
+    intro i k h; rw [List.getElem?_replicate] at h; split at h <;> simp_all
+  refine dekker_bits_of mul_dekker_f64 ⟨by decide, by decide⟩ _ hk hallf ?_ lib x y sx sy mx my ex ey dx dy nx ny hund env he hfin h l ho
+  intro r kx ky ex ey x y hx hy hr h1 h2 h3 h4 h5 h6 h7
+  exact ((dekker_generated r kx ky ex ey x y hx hy).2.2 (qf binary64 (by decide)) rfl hr h1 h2 h3 h4 h5 h6 h7).1
+
+/-- non-vacuity of `dekker_bit_exact_f32`: x = y = 1 + 2^-23 (pattern 0x3f800001) is normal, the run is
+defined and every node is finite -/
+example : decode binary32 0x3f800001 = .fin false (2 ^ 23 + 1) (-23) ∧
+    (mul_dekker_f32.eval (fun _ _ => none) [0x3f800001, 0x3f800001]).isSome = true := by decide +kernel
 
 /-- Every regenerated program is well formed (arguments refer to earlier nodes, inputs in range). -/
 theorem generated_wf : ∀ p ∈ FAVerif.Gen.C10.all, p.2.wf = true := by decide +kernel
